@@ -864,12 +864,168 @@ fn builder_case(c: &mut Case, fmt: Fmt, src: Src, take: bool, n: usize) {
 
 // ---------------------------------------------------------------- main
 
+
+// ---------------------------------------------------------------- sources that cannot seek
+
+/// A readable source whose every seek fails (a pipe, a FIFO, stdin).
+struct NoSeek<R>(R);
+impl<R: std::io::Read> std::io::Read for NoSeek<R> {
+    fn read(&mut self, buf: &mut [u8]) -> std::io::Result<usize> {
+        self.0.read(buf)
+    }
+}
+impl<R> std::io::Seek for NoSeek<R> {
+    fn seek(&mut self, _pos: std::io::SeekFrom) -> std::io::Result<u64> {
+        Err(std::io::Error::new(std::io::ErrorKind::Unsupported, "suxmon: this source cannot seek"))
+    }
+}
+
+/// Polls `polls` items, then rewinds. A source that cannot seek cannot be
+/// replayed: `rewind()` must report the error (held), or — if it returns Ok —
+/// the next pass must still be the complete first pass (anything else means
+/// the failure was swallowed).
+fn unseekable_lender_case<L: RewindableIoLender<str>>(c: &mut Case, kind: &str, mk: &dyn Fn() -> Result<L, String>, expected: &[String], polls: usize, what: &dyn Fn() -> String) {
+    let mut l = match catch(mk) {
+        Ok(Ok(l)) => l,
+        // a constructor may refuse such a source: nothing to judge
+        Ok(Err(_)) | Err(_) => return,
+    };
+    let mut got = 0usize;
+    let r = catch(|| {
+        while got < polls {
+            match l.next() {
+                None => break,
+                Some(Err(_)) => break,
+                Some(Ok(x)) => {
+                    let _ = x.to_owned();
+                    got += 1;
+                }
+            }
+        }
+    });
+    if r.is_err() {
+        return; // a panic while reading an odd source is not this property's business
+    }
+    c.tick(1);
+    match catch(|| l.rewind()) {
+        Err(_) | Ok(Err(_)) => {} // the failure is reported: held
+        Ok(Ok(mut l2)) => {
+            let mut items: Vec<String> = Vec::new();
+            let mut err = None;
+            let r = catch(|| loop {
+                match l2.next() {
+                    None => break,
+                    Some(Err(e)) => {
+                        err = Some(format!("{}", e));
+                        break;
+                    }
+                    Some(Ok(x)) => items.push(x.to_owned()),
+                }
+            });
+            if r.is_ok() && err.is_none() && items != expected {
+                c.fail(
+                    "rewind_unseekable",
+                    "mismatch",
+                    "rewind() of a source that cannot seek returned Ok but the next pass is not the first pass",
+                    &format!("{}: {} items polled, then rewind() returned Ok although every seek of the source fails; the next pass yields {} of {} items (first: {:?}); {}", kind, got, items.len(), expected.len(), items.first(), what()),
+                );
+            }
+        }
+    }
+}
+
+/// A build that has to retry (duplicate key, check_dups) over a line lender
+/// whose source cannot seek must return an error: never Ok.
+fn unseekable_builder_case(c: &mut Case, fmt: usize, n: usize) {
+    use dsi_progress_logger::no_logging;
+    let tag: u32 = c.rng().random();
+    let mut text = String::new();
+    for i in 0..n {
+        text.push_str(&format!("key-{:08x}-{}\n", tag, i));
+    }
+    // the first key again: a duplicate, so the first attempt fails and a rewind is needed
+    let dup = c.rng().random_range(0..n);
+    text.push_str(&format!("key-{:08x}-{}\n", tag, dup));
+    let bytes = match fmt {
+        0 => text.as_bytes().to_vec(),
+        1 => zstd_bytes(text.as_bytes(), Comp::Single),
+        _ => gzip_bytes(text.as_bytes(), Comp::Single),
+    };
+    let what = format!("{} keys + key #{} repeated, {} source that cannot seek, check_dups(true)", n, dup, ["plain", "zstd", "gzip"][fmt]);
+    c.describe(|| what.clone());
+    let seed: u64 = c.rng().random();
+    let build = |keys: &mut dyn FnMut() -> anyhow::Result<usize>| keys();
+    let _ = build;
+    let r: Result<anyhow::Result<usize>, String> = match fmt {
+        0 => catch(|| {
+            sux::func::VBuilder::<usize, Box<[usize]>>::default().seed(seed).check_dups(true).try_build_func(LineLender::new(BufReader::new(NoSeek(Cursor::new(bytes.clone())))), FromIntoIterator::from(0_usize..), no_logging![]).map(|f| f.len())
+        }),
+        1 => catch(|| {
+            let l = ZstdLineLender::new(NoSeek(Cursor::new(bytes.clone())))?;
+            sux::func::VBuilder::<usize, Box<[usize]>>::default().seed(seed).check_dups(true).try_build_func(l, FromIntoIterator::from(0_usize..), no_logging![]).map(|f| f.len())
+        }),
+        _ => catch(|| {
+            let l = GzipLineLender::new(NoSeek(Cursor::new(bytes.clone())))?;
+            sux::func::VBuilder::<usize, Box<[usize]>>::default().seed(seed).check_dups(true).try_build_func(l, FromIntoIterator::from(0_usize..), no_logging![]).map(|f| f.len())
+        }),
+    };
+    c.tick(1);
+    if let Ok(Ok(len)) = r {
+        c.fail(
+            "build_unseekable",
+            "ok-after-failed-rewind",
+            "try_build_func returned Ok although its key source could not be rewound",
+            &format!("try_build_func returned Ok (function over {} keys) for {}: the first attempt must fail on the duplicate and the input cannot be replayed", len, what),
+        );
+    }
+    c.nontrivial();
+}
+
 fn main() {
     let mut ctx = Ctx::from_args("C20");
     ctx.set_hang_limit(180);
     let small = ctx.small;
     let kinds = all_line_kinds(small);
     let inputs = named_inputs(ctx.thorough());
+
+    // 0. sources that cannot seek: a failed rewind must not be swallowed
+    for (iname, text) in &inputs {
+        let expected = model_lines(text);
+        let n = expected.len();
+        for fmt in 0..3usize {
+            if small && fmt != 0 {
+                continue; // zstd is C code: not under Miri
+            }
+            let kind = ["LineLender/unseekable", "ZstdLineLender/unseekable", "GzipLineLender/unseekable"][fmt];
+            ctx.case(kind, iname, "rewind_unseekable", |c| {
+                let bytes = match fmt {
+                    0 => text.as_bytes().to_vec(),
+                    1 => zstd_bytes(text.as_bytes(), Comp::Single),
+                    _ => gzip_bytes(text.as_bytes(), Comp::Single),
+                };
+                for polls in [0usize, 1, n / 2, n, n + 1] {
+                    let what = || format!("input {:?} ({} lines), {} polls before the rewind", iname, n, polls);
+                    match fmt {
+                        0 => unseekable_lender_case(c, kind, &|| Ok(LineLender::new(BufReader::new(NoSeek(Cursor::new(bytes.clone()))))), &expected, polls, &what),
+                        1 => unseekable_lender_case(c, kind, &|| ZstdLineLender::new(NoSeek(Cursor::new(bytes.clone()))).map_err(|e| e.to_string()), &expected, polls, &what),
+                        _ => unseekable_lender_case(c, kind, &|| GzipLineLender::new(NoSeek(Cursor::new(bytes.clone()))).map_err(|e| e.to_string()), &expected, polls, &what),
+                    }
+                }
+                if n >= 2 {
+                    c.nontrivial();
+                }
+                c.describe(|| format!("{} over {}", kind, show_text(text)));
+            });
+        }
+    }
+    if !small {
+        for fmt in 0..3usize {
+            for n in [10usize, 100, 1000] {
+                let kind = ["VBuilder+LineLender/unseekable", "VBuilder+ZstdLineLender/unseekable", "VBuilder+GzipLineLender/unseekable"][fmt];
+                ctx.case(kind, &format!("forced-retry/n{}", n), "build_unseekable", |c| unseekable_builder_case(c, fmt, n));
+            }
+        }
+    }
 
     // 1. every line lender kind x every named input: all histories, without
     //    take; then take(m) for the five classes of m, split by poll class
